@@ -1257,6 +1257,11 @@ func (s *sess) mkAddrBucket(rng *vh.Rng, b uint8) []byte {
 	}
 }
 
+var (
+	pow72 = new(big.Int).Lsh(big.NewInt(1), 72) // 4,722.4 aergo: amounts below it have 9 bytes
+	pow80 = new(big.Int).Lsh(big.NewInt(1), 80) // 1,208,925.8 aergo: amounts from it on have 11 bytes
+)
+
 var nameChars = "abcdefghijklmnopqrstuvwxyz1234567890"
 
 func mkName(rng *vh.Rng) string {
@@ -1332,6 +1337,8 @@ func (s *sess) randomSession(steps int, tiePool bool, large bool) {
 		bal := coins(int64(20000 + rng.Intn(200000)))
 		if rng.Chance(1, 8) {
 			bal = coins(int64(rng.Intn(12000)))
+		} else if rng.Chance(1, 5) {
+			bal = coins(int64(1500000 + rng.Intn(2000000))) // enough to stake across 2^80 aer (1,208,925.8 aergo: 11 bytes)
 		}
 		s.addAcct(a, bal)
 	}
@@ -1355,6 +1362,10 @@ func (s *sess) randomSession(steps int, tiePool bool, large bool) {
 	}
 	amounts := func(a *acct) *big.Int {
 		min := minStake()
+		if s.balance(a.addr).Cmp(pow80) > 0 && rng.Chance(1, 3) {
+			// around the power of 256 where the byte length of the amount changes
+			return new(big.Int).Add(pow80, big.NewInt(int64(rng.Intn(3))-1))
+		}
 		switch rng.Intn(8) {
 		case 0:
 			return new(big.Int).Set(min)
@@ -1415,7 +1426,7 @@ func (s *sess) randomSession(steps int, tiePool bool, large bool) {
 		case k < 34:
 			var x *big.Int
 			min := minStake()
-			switch rng.Intn(7) {
+			switch rng.Intn(8) {
 			case 0:
 				x = new(big.Int).Set(cur)
 			case 1:
@@ -1431,6 +1442,14 @@ func (s *sess) randomSession(steps int, tiePool bool, large bool) {
 				x = new(big.Int).Sub(cur, new(big.Int).Sub(min, big.NewInt(1)))
 				if x.Sign() < 0 {
 					x = big.NewInt(1)
+				}
+			case 5: // down across a byte-length boundary of the amount (2^80, 2^72 aer)
+				x = coins(100000)
+				if cur.Cmp(pow80) < 0 || rng.Bool() {
+					x = new(big.Int).Sub(cur, new(big.Int).Sub(pow72, big.NewInt(1)))
+					if x.Sign() <= 0 {
+						x = coins(1)
+					}
 				}
 			default: // partial
 				if cur.Sign() > 0 {
@@ -1679,6 +1698,33 @@ func scripted(run *vh.Run, fd *findings) {
 		s.setOwner(b, a)              // already set
 		s.nameCreate(a, n2, coins(1)) // the payment goes to the contract owner now
 		s.endBlock(6)
+		s.close()
+	}
+	// S6: amounts whose byte length changes (powers of 256): the stored amounts are minimal big-endian byte strings, a vote of
+	// 2^80 aer (01 00..00, 11 bytes) against a remaining stake of 10 bytes with a larger leading byte
+	{
+		s := newSess(run, fd, run.Rng.Fork(), 2, "scripted:byte-length-boundary")
+		a := s.addAcct(fixedAddr(23), coins(3000000))
+		b := s.addAcct(fixedAddr(24), coins(3000000))
+		c1 := peerID(2, fill(0x21))
+		rest := new(big.Int).Sub(new(big.Int).Sub(pow80, coins(100000)), new(big.Int).Sub(pow72, big.NewInt(1)))
+		s.h = 2
+		s.stake(a, pow80)
+		s.stake(b, new(big.Int).Sub(pow80, big.NewInt(1)))
+		s.voteBP(a, [][]byte{c1})
+		s.voteDAO(a, "GASPRICE", []string{"7"})
+		s.voteBP(b, [][]byte{c1})
+		s.endBlock(2 + D)
+		s.unstake(a, coins(100000)) // 11 bytes -> 10 bytes, leading byte 0x01 -> 0xea: both votes must shrink
+		s.unstake(b, big.NewInt(1)) // stays 10 bytes
+		s.stake(b, big.NewInt(1))   // within the delay
+		s.endBlock(2 + 2*D)
+		s.stake(b, big.NewInt(2)) // 10 bytes -> 11 bytes
+		s.unstake(a, rest)        // would leave 2^72-1 aer: below the minimum
+		s.voteDAO(a, "STAKINGMIN", []string{coins(4000).String()})
+		s.endBlock(2 + 3*D)
+		s.unstake(a, rest) // 10 bytes -> 9 bytes
+		s.endBlock(2 + 4*D)
 		s.close()
 	}
 	// S5: system transactions whose account field is a *name* bound to the sender: the records are those of the address
